@@ -311,6 +311,11 @@ class Rule(
         if not configuration.rule_object_anything:
             return configuration
 
+        if not configuration.should_not:
+            raise ImproperlyConfigured(
+                'The "anything" rule object can only be used with "should not".'
+            )
+
         # should not import anything is equivalent to should not import except itself
         # should not be imported by anything is equivalent to should not be imported by anything except itself
 
